@@ -74,6 +74,45 @@ Theorem C01_prefilter_false_vev_zero :
 Proof. exact prefilter_false_vev_zero. Qed.
 Print Assumptions C01_prefilter_false_vev_zero.
 
+(* Normal-ordered groups whose indices are occupied/virtual: the model's
+   flattening (quasi-creators first, sign of the permutation) followed by the
+   contraction recursion has the value of the product in which every group
+   N[...] has its own determinant-space meaning. *)
+Theorem C01_no_flatten_sound :
+  forall M env gs, env_ok M env -> groups_ok gs = true ->
+    wval M env (wicks_groups gs) = gvev M (map (inst_group env) gs).
+Proof. exact no_flatten_sound. Qed.
+Print Assumptions C01_no_flatten_sound.
+
+(* a normal-ordered product alone has expectation value 0 (wicks returns
+   S.Zero for NO objects), and operators of the same class anticommute
+   exactly, so the order sympy chooses inside the classes is immaterial *)
+Theorem C01_normal_ordered_vev_zero :
+  forall M (l : list eop), l <> [] -> (forall o, In o l -> snd o < norb M) ->
+    vev M (snd (normal_order M l)) = 0%Z.
+Proof. exact vev_normal_ordered. Qed.
+Print Assumptions C01_normal_ordered_vev_zero.
+
+Theorem C01_same_class_anticommute :
+  forall M (u : list eop) (a b : eop) (v : list eop),
+    qcre M a = qcre M b -> vev M (u ++ a :: b :: v) = (- vev M (u ++ b :: a :: v))%Z.
+Proof. exact vev_swap_same_class. Qed.
+Print Assumptions C01_same_class_anticommute.
+
+(* With tensors: for every scalar domain, every tensor part T (an arbitrary
+   function of the orbital assignment, hence any tensors with any values),
+   every list xs of contracted indices and every assignment of the other
+   indices, the result of the model multiplied by the tensors and summed over
+   xs equals the expectation value of the operator product multiplied by the
+   tensors and summed over xs. *)
+Theorem C01_wicks_value :
+  forall (S : Scalar) M env gs (T : (index -> nat) -> K S) xs,
+    env_ok M env -> groups_ok gs = true ->
+    sum_idx S M xs env (fun e => kmul S (T e) (zK S (wval M e (wicks_groups gs)))) =
+    sum_idx S M xs env (fun e => kmul S (T e) (zK S (gvev M (map (inst_group e) gs)))).
+Proof. exact wicks_value. Qed.
+Print Assumptions C01_wicks_value.
+
 (* Rules.apply removes exactly the terms containing a tensor whose
    (name, block) is forbidden, keeping order and multiplicity of the rest. *)
 Theorem C01_rules_exact :
@@ -104,4 +143,16 @@ Example C01_nontrivial_instance :
   let ops := [Op true i; Op false a; Op true p; Op false q; Op true b; Op false j] in
   List.length (contract ops) = 3 /\
   wval exM ex_env (contract ops) = 1%Z /\ vev exM (map (inst ex_env) ops) = 1%Z.
+Proof. vm_compute. auto. Qed.
+Example C01_no_instance :
+  (* <Phi| a+_i a_a N[a_c a+_b] a+_d a_j |Phi> = - <Phi| a+_i a_a a+_b a_c a+_d a_j |Phi>
+     with i,j -> 0 and a,b,c,d -> 2 equals -1 *)
+  let i := Idx Occ NoSpin 105 0 0 in let j := Idx Occ NoSpin 106 0 0 in
+  let a := Idx Virt NoSpin 97 0 0 in let b := Idx Virt NoSpin 98 0 0 in
+  let c := Idx Virt NoSpin 99 0 0 in let d := Idx Virt NoSpin 100 0 0 in
+  let gs := [(false, [Op true i; Op false a]); (true, [Op false c; Op true b]);
+             (false, [Op true d; Op false j])] in
+  groups_ok gs = true /\ fst (flatten_groups gs) = true /\
+  wval exM ex_env (wicks_groups gs) = (-1)%Z /\
+  gvev exM (map (inst_group ex_env) gs) = (-1)%Z.
 Proof. vm_compute. auto. Qed.
